@@ -157,10 +157,6 @@ func VerifC07PkgFilterCodec() {
 	vAssert(g.count == f.count && bytes.Equal(g.filter, f.filter), "codec: round trip keeps count and vector")
 	vAssert(g.Equal(f) && f.Equal(g), "codec: Equal holds across the round trip")
 	vAssert(r.Len() == 2, "codec: Decode consumes exactly Size() bytes")
-	j := vU16("j")
-	vAssume(j < f.count)
-	vAssert(g.Contains(j) == f.Contains(j), "codec: membership survives the round trip")
-	vAssert(g.IsFull() == f.IsFull(), "codec: fullness survives the round trip")
 	vReach("roundtrip")
 
 	// a truncated encoding is rejected
